@@ -270,7 +270,7 @@ def run(ctx):
     preload()
     pool = multiprocessing.Pool(vf.NPROC, maxtasksperchild=1)   # forked before any thread exists; one process per job: no job sees the state another left
     async_res = pool.map_async(W.process, jobs, chunksize=1)
-    ok = ctx.coq_build(props=('Props.v', 'Props2.v', 'Props3.v', 'Props4.v', 'Props5.v'), timeout=1500)
+    ok = ctx.coq_build(props=('Props.v', 'Props2.v', 'Props3.v', 'Props4.v', 'Props5.v', 'Props6.v'), timeout=1500)
     exe = vf.build_driver(ctx) if os.path.exists(os.path.join(ctx.build, 'Drv.ml')) else None
     if exe is None and ok:
         ctx.proof_failures.append({'kind': 'proof', 'name': 'extraction', 'detail': 'Drv.ml was not produced'})
